@@ -1299,17 +1299,9 @@ func ruleKEY12(c *Ctx) []Ob {
 	// (a) the comparator: a function of two float64 returning int that calls math.IsNaN
 	var cmpF *ssa.Function
 	for _, fn := range c.LibFuncs {
-		if c.pkgRel(fn) != "internal" || fn.Parent() != nil || len(fn.Params) != 2 || fn.Signature.Results().Len() != 1 {
-			continue
+		if c.pkgRel(fn) == "internal" && c.isFloatComparator(fn, 0) {
+			cmpF = fn
 		}
-		isF := func(t types.Type) bool {
-			b, ok := t.Underlying().(*types.Basic)
-			return ok && b.Kind() == types.Float64
-		}
-		if !isF(fn.Params[0].Type()) || !isF(fn.Params[1].Type()) || !isIntType(fn.Signature.Results().At(0).Type()) {
-			continue
-		}
-		cmpF = fn
 	}
 	if cmpF == nil {
 		o.add(UNDECIDED, "float comparator", "-", "no function (float64, float64) int found in package internal")
@@ -1438,4 +1430,52 @@ func ruleKEY12(c *Ctx) []Ob {
 		o.add(UNDECIDED, "number keys", "-", "the function converting numbers for the key encoder was not found")
 	}
 	return o.list
+}
+
+// isFloatComparator: fn is a function (float64, float64) int that compares its two parameters WITH EACH
+// OTHER: an ordering or equality test has one of them on each side, or both are handed (in either order) to
+// such a function. A helper of the same signature that does arithmetic on its parameters and compares the
+// result with a constant (the sign of a fractional part) is not a comparator of numbers.
+func (c *Ctx) isFloatComparator(fn *ssa.Function, depth int) bool {
+	if fn == nil || depth > 3 || fn.Parent() != nil || len(fn.Params) != 2 || fn.Signature.Results().Len() != 1 || len(fn.Blocks) == 0 {
+		return false
+	}
+	isF := func(t types.Type) bool {
+		b, ok := t.Underlying().(*types.Basic)
+		return ok && b.Kind() == types.Float64
+	}
+	if !isF(fn.Params[0].Type()) || !isF(fn.Params[1].Type()) || !isIntType(fn.Signature.Results().At(0).Type()) {
+		return false
+	}
+	is := func(v ssa.Value, p *ssa.Parameter) bool {
+		for _, og := range origins(v) {
+			if og == ssa.Value(p) {
+				return true
+			}
+		}
+		return false
+	}
+	p0, p1 := fn.Params[0], fn.Params[1]
+	found := false
+	for _, b := range fn.Blocks {
+		for _, in := range b.Instrs {
+			switch x := in.(type) {
+			case *ssa.BinOp:
+				switch x.Op {
+				case token.LSS, token.GTR, token.LEQ, token.GEQ, token.EQL, token.NEQ:
+					if (is(x.X, p0) && is(x.Y, p1)) || (is(x.X, p1) && is(x.Y, p0)) {
+						found = true
+					}
+				}
+			case *ssa.Call:
+				if g := staticCallee(x); g != nil && c.IsLib(c.declared(g)) && c.declared(g) != fn && len(x.Call.Args) == 2 {
+					a := x.Call.Args
+					if ((is(a[0], p0) && is(a[1], p1)) || (is(a[0], p1) && is(a[1], p0))) && c.isFloatComparator(c.declared(g), depth+1) {
+						found = true
+					}
+				}
+			}
+		}
+	}
+	return found
 }
